@@ -15,10 +15,16 @@ MANIFEST = {
             "set-of-accepted-PIVs monitor S written from RFC 8613, and S implies the property), piv_never_reused (PIVs strictly "
             "increasing over all protect / crash-restart sequences, every ssn_freq). M is tied to the compiled code by differential "
             "runs of the real coap_oscore_decrypt_pdu (request and response branch on the same recipient context) / "
-            "coap_oscore_new_pdu_encrypted on generated and exhaustive short histories (I vs M vs S, state compared after every event).",
+            "coap_oscore_new_pdu_encrypted on generated and exhaustive short histories (I vs M vs S, state compared after every event). "
+            "Forged messages come with every ciphertext length (none, 1..8 = not longer than the AEAD tag, longer): "
+            "short_ciphertext_never_accepted / short_ciphertext_no_trace / accept_at_most_once_dgram over the datagram layer stepD. "
+            "Nonce reuse is additionally OBSERVED, not proved over histories: the (key, nonce) pair really handed to the AEAD "
+            "(--wrap=cose_encrypt0_encrypt) for every request, response and notification an endpoint protects while requests, Observe "
+            "registrations and forged requests arrive must be pairwise distinct and, without Partial IV, be the nonce of an accepted "
+            "request (step theorems only: notification_fresh_piv, observe_response_fresh_piv, forged_request_no_association).",
     "note": "Trusted: Lean kernel (+ propext, Classical.choice, Quot.sound), harness/replay.c, generators and the Python monitor, the "
             "hand transcription M (checked against the compiled code on the cases run only). The AEAD is an oracle (authentic / forged). "
-            "piv_never_reused assumes fewer than 2^63 operations (uint64 counter). Seven defects of the pinned tree were fixed "
+            "piv_never_reused assumes fewer than 2^63 operations (uint64 counter). Nine defects of the pinned tree were fixed "
             "(KNOWN_FINDINGS.txt); M models the fixed code. 'At most once' is claimed for requests (the property text); replays of "
             "responses are only rejected once the window is initialised (SPEC DECISION D15f).",
     "design_ref": "DESIGN.md §4 C15, design/C15.md",
@@ -28,7 +34,9 @@ NAMESPACE = "Coap.C15"
 REQUIRED_THEOREMS = ["accept_at_most_once", "recorded_at_most_once", "forged_never_accepted", "forged_request_no_trace",
                      "forgery_no_trace", "reachable_sane", "forgery_no_trace_reachable", "forgery_invisible",
                      "fresh_in_window_accepted", "fresh_response_accepted", "no_ub_shift", "no_ub_recv", "recv_conforms_spec",
-                     "spec_accept_at_most_once", "spec_forged_rejected", "piv_never_reused"]
+                     "spec_accept_at_most_once", "spec_forged_rejected", "piv_never_reused",
+                     "short_ciphertext_never_accepted", "short_ciphertext_no_trace", "accept_at_most_once_dgram",
+                     "notification_fresh_piv", "observe_response_fresh_piv", "forged_request_no_association"]
 RULE = ("recipient: histories of <= 30 protected messages delivered through coap_oscore_decrypt_pdu to ONE fresh recipient context: "
         "requests (authentic with/without/with wrong Echo, forged with any claimed Partial IV) and, interleaved, responses to an "
         "Observe registration of that endpoint (authentic notifications carrying the peer's sequence number as Partial IV, forged "
@@ -39,7 +47,11 @@ RULE = ("recipient: histories of <= 30 protected messages delivered through coap
         "short histories over small PIV alphabets with and without responses; "
         "sender: protect/crash-restart sequences with ssn_freq 1..9 (some large) through coap_oscore_new_pdu_encrypted and the "
         "save callback; direct calls of oscore_validate_sender_seq on random states; one to four messages delivered to a recipient "
-        "context preset to a random (also unreachable, e.g. last_seq >= 2^40-1) state; the fixed corpus. "
+        "context preset to a random (also unreachable, e.g. last_seq >= 2^40-1) state; forged messages with ciphertext lengths "
+        "0 (no payload), 1..8, 9 and more (about 45 % of the forged events, plus every length 0..10 in short contexts); "
+        "sender nonces: <= 24 ops over {request / Observe registration / forged request arrives for one of 1..5 tokens, respond "
+        "without Observe / notify / respond with OSCORE_SEND_PARTIAL_IV, own request}, all sequences of length <= 3 over 12 symbols; "
+        "the fixed corpus. "
         "non-trivial = distinct history in which at least one message was accepted / one PIV was sent")
 TRUSTED_BASE = ["Lean 4.33 kernel; axioms allowed: propext, Classical.choice, Quot.sound (audited per theorem each run)",
                 "harness/replay.c (drives coap_oscore_decrypt_pdu / coap_oscore_new_pdu_encrypted of the rebuilt libcoap, both endpoints "
@@ -65,7 +77,7 @@ SPEC_DECISIONS = ["D15a a never-accepted authentic request older than the window
                   "the highest PIV accepted in a request or a response; a request whose PIV an accepted response already used may go either way",
                   "D15f 'at most once' is asked of requests only: an authentic response with a PIV accepted before may go either way; a genuine "
                   "response without PIV, or with a new PIV < 2^40-1 not older than the window, is accepted (unless a PIV >= 2^40-1 was accepted)"]
-WRAPS = ["coap_send_internal", "oscore_cbor_put_bytes"]
+WRAPS = ["coap_send_internal", "oscore_cbor_put_bytes", "cose_encrypt0_encrypt"]
 SEQ_LIMIT = 2 ** 40 - 1
 
 
@@ -76,6 +88,19 @@ def harness(ctx):
 # ----------------------------------------------------------------------------------------------------------------
 # generators
 # ----------------------------------------------------------------------------------------------------------------
+def forged_len(rng):
+    """ciphertext length of a forged message: none at all, 1..8 (not longer than the AEAD tag), 9 (tag + code byte), more;
+    '' = the historic 14 junk bytes"""
+    c = rng.random()
+    if c < 0.55:
+        return ""
+    return ".%d" % rng.choice([0, 1, 2, rng.randint(1, 8), 7, 8, 8, 9, 9, 10, 13, 16, rng.randint(9, 80)])
+
+
+def with_forged_len(rng, evs):
+    return [e + forged_len(rng) if e[0] in "xyz" and "." not in e else e for e in evs]
+
+
 def gen_history(rng, maxlen=30, responses=None):
     """PIV-driven history; with `responses` some of the events are responses (notification n / forged y / without PIV r, z)
     on the same recipient context, their PIVs drawn by the same rules (window edges, replays, jumps)"""
@@ -136,7 +161,7 @@ def gen_history(rng, maxlen=30, responses=None):
             evs.append("%s%d" % (kind, p))
             seen.append(p)
         first = False
-    return "replay %d %d %s" % (w, b12, " ".join(evs))
+    return "replay %d %d %s" % (w, b12, " ".join(with_forged_len(rng, evs)))
 
 
 def gen_mixed(rng, maxlen=30):
@@ -185,7 +210,7 @@ def gen_mixed(rng, maxlen=30):
             evs.append(rng.choice("xyy") + str(min(int(p), 2 ** 40 - 1)))
         else:
             evs.append(rng.choice("rrz") + "0")
-    return "replay %d %d %s" % (w, b12, " ".join(evs))
+    return "replay %d %d %s" % (w, b12, " ".join(with_forged_len(rng, evs)))
 
 
 def gen_sender(rng, maxlen=40):
@@ -227,7 +252,52 @@ def gen_replayst(rng):
             continue
         p = min(p, 2 ** 40 - 1 if kind in "xy" else SEQ_LIMIT - 2)
         evs.append("%s%d" % (kind, p))
-    return "replayst %d %d %d %d %d %s" % (w, b12, init, last, win, " ".join(evs))
+    return "replayst %d %d %d %d %d %s" % (w, b12, init, last, win, " ".join(with_forged_len(rng, evs)))
+
+
+def gen_nonces(rng, maxlen=24):
+    """The endpoint as server and client: requests of the peer arrive (plain / Observe registrations, a few tokens, the
+    peer's sequence number increasing with gaps, some replayed, some forged ones re-using a token with any claimed PIV),
+    the endpoint protects responses (without Observe, notifications, with OSCORE_SEND_PARTIAL_IV — also several for one
+    request, for tokens never seen, after forged requests) and requests of its own."""
+    w = rng.choice([32, 32, rng.randint(1, 63), 64])
+    ntok = rng.choice([1, 2, 2, 3, 5])
+    seq = rng.choice([0, 0, 0, 1, 7, rng.randint(0, 300), 2 ** 24 - 2, SEQ_LIMIT - 30])
+    p_obs = rng.choice([0.2, 0.5, 0.8])
+    used, live, ops = [], [], []
+    for _ in range(rng.randint(2, maxlen)):
+        c = rng.random()
+        t = rng.randrange(ntok)
+        if c < 0.28 and seq < SEQ_LIMIT - 2:
+            k = "o" if rng.random() < p_obs else "g"
+            ops.append("%s%d.%d" % (k, t, seq))
+            used.append(seq)
+            live.append(t)
+            seq += rng.choice([1, 1, 1, 1, 2, 3, rng.randint(1, 70)])
+            if rng.random() < 0.6:                           # the usual exchange: answered at once
+                ops.append(("n" if k == "o" and rng.random() < 0.8 else rng.choice("rrri")) + str(t))
+        elif c < 0.36 and used:
+            ops.append("%s%d.%d" % (rng.choice("go"), t, rng.choice(used)))         # replay of an earlier request
+        elif c < 0.50:
+            p = rng.choice([seq, seq + 1, seq + rng.randint(0, 40), rng.choice(used) if used else 0,
+                            max(0, seq - rng.randint(1, 40)), rng.randint(0, seq + 100)])
+            ops.append("x%d.%d" % (rng.choice(live) if live and rng.random() < 0.8 else t, min(p, 2 ** 40 - 1)))
+        elif c < 0.58:
+            ops.append("q")
+        else:
+            tt = rng.choice(live) if live and rng.random() < 0.85 else t
+            ops.append(rng.choice("rrrrnnnni") + str(tt))
+    return "nonces %d %s" % (w, " ".join(ops))
+
+
+def exhaustive_nonces(maxlen):
+    alpha = ["g0.0", "o0.0", "g0.1", "o1.1", "x0.1", "x0.2", "g1.2", "r0", "n0", "r1", "i0", "q"]
+    out = []
+    for n in range(1, maxlen + 1):
+        for ops in itertools.product(alpha, repeat=n):
+            if any(o[0] in "rniq" for o in ops):
+                out.append("nonces 32 " + " ".join(ops))
+    return out
 
 
 def exhaustive(windows, b12s, alphabet, maxlen):
@@ -257,6 +327,22 @@ def generate(ctx, escalate=False):
         out.append(gen_validate(rng))
     for i in range(n // 3):
         out.append(gen_replayst(rng))
+    for i in range(n // 3):
+        out.append(gen_nonces(rng))
+    nx = exhaustive_nonces(4 if thorough else 3)
+    # forged messages of every ciphertext length 0..10 in every short context (before / after the window is initialised,
+    # PIV below / equal / above last_seq, B.1.2 pending or not)
+    fl = []
+    for b in (0, 1):
+        for pre in ([], ["a5"], ["e5"], ["n5"], ["a5", "a7"]):
+            for k in "xyz":
+                for p in ((0,) if k == "z" else (0, 3, 5, 6, 7, 200, SEQ_LIMIT - 1)):
+                    for ln in range(0, 11):
+                        fl.append("replay 32 %d %s" % (b, " ".join(pre + ["%s%d.%d" % (k, p, ln), "a6", "n8"])))
+    ctx.cov["nonces"] = ("sender side, (key, nonce) handed to the AEAD: all op sequences of length <= %d over 12 symbols "
+                         "(%d cases), %d random; forged messages with ciphertext length 0..10 in %d short contexts" % (
+                             4 if thorough else 3, len(nx), n // 3, len(fl)))
+    out += nx + fl
     # exhaustive short histories (every order of fresh / replay / forged over a small PIV alphabet incl. a jump >= 64)
     if thorough:
         alpha = [k + str(p) for k in "ax" for p in (0, 1, 2, 3, 4, 68, 69)]
@@ -330,6 +416,23 @@ def allowed(window, accepted, seen, synced, kind, piv):
     return ["acc"] if in_window else BOTH
 
 
+def ev_parts(ev):
+    """<kind><piv>[.<ciphertext length>]"""
+    body, _, ln = ev[1:].partition(".")
+    try:
+        return ev[0], int(body), (int(ln) if ln else None)
+    except ValueError:
+        return "?", 0, None
+
+
+def what(ev):
+    kind, piv, clen = ev_parts(ev)
+    s = WHAT.get(kind, kind)
+    if clen is not None:
+        s += " with a ciphertext of %d bytes" % clen if clen else " without any payload"
+    return s
+
+
 def judge_replay(ctx, c):
     w = c["input"].split()
     window, b12, evs = int(w[1]) or 32, int(w[2]) != 0, w[3:]
@@ -344,8 +447,8 @@ def judge_replay(ctx, c):
     lock = True
     tie = None
     for k, ev in enumerate(evs):
-        kind, piv = ev[0], int(ev[1:])
-        if kind not in WHAT:
+        kind, piv, clen = ev_parts(ev)
+        if kind not in WHAT or (clen is not None and kind not in "xyz"):
             return ("tie", "unknown event %r" % ev)
         try:
             v, state = it[k].split(":")
@@ -354,7 +457,7 @@ def judge_replay(ctx, c):
         al = allowed(window, accepted, seen, synced, kind, piv)
         cls = out_class(v)
         if cls not in al:
-            why = "event %d (%s, PIV %d): implementation %s, allowed %s" % (k + 1, WHAT[kind], piv, v, "/".join(al))
+            why = "event %d (%s, PIV %d): implementation %s, allowed %s" % (k + 1, what(ev), piv, v, "/".join(al))
             if cls == "acc" and kind in "aew" and piv in accepted:
                 why += " — request PIV accepted twice"
             elif kind not in "xyz" and cls == "rej" and al == ["acc"]:
@@ -362,7 +465,7 @@ def judge_replay(ctx, c):
                     sorted(accepted)[-6:], sorted(seen)[-6:])
             return ("spec", why)
         if kind in "xyz" and state != prev:
-            return ("spec", "event %d: %s (PIV %d) changed the replay state %s -> %s" % (k + 1, WHAT[kind], piv, prev, state))
+            return ("spec", "event %d: %s (PIV %d) changed the replay state %s -> %s" % (k + 1, what(ev), piv, prev, state))
         if lock and k < len(st) and "/".join(al) != st[k] and tie is None:
             tie = ("tie", "event %d: Lean S allows %s, the Python monitor %s" % (k + 1, st[k], "/".join(al)))
         if lock and (k >= len(mt) or it[k] != mt[k]):
@@ -398,10 +501,10 @@ def judge_replayst(ctx, c):
             return ("tie", "unparsable harness token %r" % it[k])
         if ev[0] in "xyz":
             if v == "acc":
-                return ("spec", "event %d: %s (PIV %s) accepted" % (k + 1, WHAT[ev[0]], ev[1:]))
+                return ("spec", "event %d: %s (PIV %s) accepted" % (k + 1, what(ev), ev[1:]))
             pi, pl, _ = prev.split(",")
             if state != prev and (pi == "1" or int(pl) < SEQ_LIMIT):
-                return ("spec", "event %d: %s (PIV %s) changed the replay state %s -> %s" % (k + 1, WHAT[ev[0]], ev[1:], prev, state))
+                return ("spec", "event %d: %s (PIV %s) changed the replay state %s -> %s" % (k + 1, what(ev), ev[1:], prev, state))
         prev = state
     if i != m:
         return ("tie", "implementation %s but model M says %s" % (i[:150], m[:150]))
@@ -434,8 +537,65 @@ def judge_sender(ctx, c):
     return None
 
 
+def judge_nonces(ctx, c):
+    """The property on the implementation's own output: every message the sender context protects is encrypted with a
+    (key, nonce) pair of its own; a message with a Partial IV in its OSCORE option uses the nonce of that Partial IV and
+    its own Sender ID, one without uses the nonce of a request that was ACCEPTED (authenticated), and that at most once."""
+    ops = c["input"].split()[2:]
+    i, m = c["impl"] or "", c["model"] or ""
+    if i.startswith("crash"):
+        return ("spec", "the implementation aborted (sanitizer / undefined behaviour): " + i[:200])
+    it = i.split()
+    if len(it) != len(ops):
+        return ("tie", "harness printed %d results for %d ops: %s" % (len(it), len(ops), i[:120]))
+    seen = {}
+    accepted = set()
+    stripped = []
+    for k, (op, t) in enumerate(zip(ops, it)):
+        if op[0] in "gox":
+            stripped.append(t)
+            if t == "acc":
+                if op[0] == "x":
+                    return ("spec", "op %d: forged request %s accepted" % (k + 1, op))
+                accepted.add(int(op.split(".")[1]))
+            continue
+        if t == "err":
+            stripped.append(t)
+            continue
+        f = t.split("/")
+        if len(f) != 3 or "." not in f[2]:
+            return ("tie", "unexpected harness token %r" % t)
+        piv, key, nonce = f
+        stripped.append(piv + "/" + nonce)
+        if (key, nonce) in seen:
+            return ("spec", "op %d (%s): protected with the same key and nonce (id.PIV %s, key %s..) as op %d (%s) — nonce reuse" % (
+                k + 1, op, nonce, key, seen[(key, nonce)] + 1, ops[seen[(key, nonce)]]))
+        seen[(key, nonce)] = k
+        nid, npiv = nonce.split(".")
+        if piv != "-":
+            if nid != "02" or npiv != piv:
+                return ("spec", "op %d (%s): OSCORE option carries Partial IV %s but the nonce used is that of id %s, PIV %s" % (
+                    k + 1, op, piv, nid, npiv))
+        else:
+            # (a notification without Partial IV is not judged here: RFC 8613 4.1.3.5.2 lets the FIRST one use the nonce of
+            # the request; a second one is caught above as nonce reuse, a difference from M below as a tie break)
+            if op[0] in "qi":
+                return ("spec", "op %d (%s): a %s was protected without a Partial IV of its own (nonce of id %s, PIV %s)" % (
+                    k + 1, op, {"q": "request", "i": "response with OSCORE_SEND_PARTIAL_IV"}[op[0]], nid, npiv))
+            if nid != "01" or int(npiv) not in accepted:
+                return ("spec", "op %d (%s): protected with the nonce of id %s, PIV %s, which is not the nonce of an accepted request "
+                                "(accepted request PIVs: %s)" % (k + 1, op, nid, npiv, sorted(accepted)[-6:]))
+    if c["spec"] != "distinct":
+        return ("tie", "model M reuses a nonce on this history")
+    if " ".join(stripped) != m:
+        return ("tie", "implementation %s but model M says %s" % (" ".join(stripped)[:150], m[:150]))
+    return None
+
+
 def judge(ctx, c):
     op = c["input"].split()[0]
+    if op == "nonces":
+        return judge_nonces(ctx, c)
     if op == "replay":
         return judge_replay(ctx, c)
     if op == "replayst":
@@ -459,6 +619,8 @@ def nontrivial(c):
         return "acc:" in i
     if op == "sender":
         return any(t[0].isdigit() for t in i.split())
+    if op == "nonces":
+        return "/" in i
     return i.startswith("1:") or i.startswith("0:")
 
 
@@ -473,7 +635,7 @@ def mutate(rng, line):
     w = line.split()
     if w[0] != "replay" or len(w) < 4:
         return line
-    evs = w[3:]
+    evs = [e.split(".")[0] for e in w[3:]]
     k = rng.randrange(len(evs))
     c = rng.random()
     if c < 0.3 and len(evs) > 1:
@@ -489,7 +651,7 @@ def mutate(rng, line):
         evs[k] = rng.choice("aaxenny") + str(min(p, SEQ_LIMIT - 2))
     if rng.random() < 0.2:
         w[1] = str(rng.randint(1, 63))
-    return " ".join(w[:3] + evs[:40])
+    return " ".join(w[:3] + with_forged_len(rng, evs[:40]))
 
 
 def search(ctx, tie_breaks, proof):
@@ -504,6 +666,8 @@ def search(ctx, tie_breaks, proof):
     out += exhaustive([2, 32], [0], alpha_m, 4)
     out += [gen_history(rng) for _ in range(40000)]
     out += [gen_mixed(rng) for _ in range(30000)]
+    out += [gen_nonces(rng) for _ in range(20000)]
+    out += exhaustive_nonces(4)
     return out
 
 
@@ -512,8 +676,8 @@ def shrink(ctx, case):
     from vlib.runner import diff_side
     import props.C15 as me
     w = case["input"].split()
-    hdr = 6 if w[0] == "replayst" else 3
-    if w[0] not in ("replay", "replayst", "sender") or len(w) < hdr + 2:
+    hdr = 6 if w[0] == "replayst" else 2 if w[0] == "nonces" else 3
+    if w[0] not in ("replay", "replayst", "sender", "nonces") or len(w) < hdr + 2:
         return case
     best, evs = case, w[hdr:]
     changed, rounds = True, 0
